@@ -160,6 +160,12 @@ psRes_t psVerifySig(psPool_t *pool,
         break;
 #  ifdef USE_ED25519
     case PS_ED25519:
+        if (sigLen != 64)
+        {
+            psTraceCrypto("Ed25519 signature must be 64 octets\n");
+            rc = PS_VERIFICATION_FAILED;
+            goto out;
+        }
         rc = psEd25519Verify(sig,
                 msgIn,
                 msgInLen,
